@@ -747,7 +747,10 @@ class Interp:
                 out.append(slice(f_(p.lower), f_(p.upper), f_(p.step)))
             else:
                 v = self.eval(p)
-                if isinstance(v, list) and all(isinstance(b, bool) for b in v):
+                if isinstance(v, Obj) and v.name == "slice" and "stop" in v.attrs:
+                    g_ = lambda x: None if x is None else int(to_poly(x).const_value())
+                    out.append(slice(g_(v.attrs.get("start")), g_(v.attrs.get("stop")), g_(v.attrs.get("step"))))
+                elif isinstance(v, list) and all(isinstance(b, bool) for b in v):
                     out.append(list(v))
                 elif isinstance(v, bool):
                     raise Undecided("boolean scalar index")
@@ -1467,6 +1470,18 @@ class Interp:
                 if v.is_const():
                     return Poly.const(int(v.const_value()))
             raise Undecided(f"{name}() of a symbolic value")
+        if name in ("min", "max") and isinstance(f, ast.Name) and args and "key" not in kw:
+            vals = [ev(a) for a in args]
+            if len(vals) == 1:
+                vals = list(self.iterable(vals[0], name))
+            if not vals:
+                raise _PyRaise("ValueError")
+            best = vals[0]
+            for v in vals[1:]:
+                # decided like any other comparison: exactly, or at the region's representative point
+                if self.compare(ast.Lt() if name == "min" else ast.Gt(), v, best):
+                    best = v
+            return best
         if name == "repr" and isinstance(f, ast.Name) and len(args) == 1:
             def _r(v):
                 if isinstance(v, str):
